@@ -556,6 +556,8 @@ func SetMessageSizeLimit(maxMessageSize uint32) {
 	} else {
 		messageSizeLimit = maxMessageSize
 	}
+	// transfer filters must not expand a message beyond it either
+	xfer.SetUnpackLimit(messageSizeLimit)
 }
 
 func checkMessageSize(messageSize uint32) error {
